@@ -322,3 +322,7 @@ func TestMain(m *testing.M)   { vf.Main(m, "C05") }
 func TestCorpus(t *testing.T) { vf.Corpus(t) }
 func TestProp(t *testing.T)   { vf.RunAll(t) }
 func TestReplay(t *testing.T) { vf.ReplayEnv(t) }
+
+// native fuzz targets (thorough tier): the fuzzer mutates the byte stream that rapid decodes into generator choices
+func FuzzCountCNF(f *testing.F) { vf.FuzzNamed(f, "C05", "cnf") }
+func FuzzCountPB(f *testing.F) { vf.FuzzNamed(f, "C05", "pb") }
